@@ -1,6 +1,7 @@
 import ErgoVerif.Lemmas.TM
 import ErgoVerif.Lemmas.TMTerminate
 import ErgoVerif.Lemmas.LinkRace
+import ErgoVerif.Generated.LinkRace
 import ErgoVerif.Model.Guard
 /-!
 # C14 — remote failure detection (node down part)
@@ -231,44 +232,65 @@ end RemoteTermination
 section Race
 open ErgoVerif.LinkRace
 
-/-- full statement for relations that are being created concurrently with a node-down: once node `n` went down and no
-    later request about a target on `n` was answered (no new connection), then, when every answered request has been
-    recorded, no relation on a target of `n` is left in the table (each one was cleaned up, hence notified by
-    `C14_node_down_exactly_once`) -/
-def C14_race_full : Prop :=
-  ∀ (tr1 tr2 : List Ev) (n : Node),
-    (∀ e ∈ tr2, ∀ k, e = Ev.answered k → k.target.onNode n = false) →
-    (run init (tr1 ++ [Ev.down n] ++ tr2)).pending = [] →
-    ∀ k ∈ (run init (tr1 ++ [Ev.down n] ++ tr2)).tm.rel, k.target.onNode n = false
+/-- the code as it is: RouteLink*/RouteMonitor* look at the connection table again after the insert (regenerated) -/
+abbrev rc : Bool := ErgoVerif.Gen.LinkRace.remoteRecheckAfterAdd
 
-/-- the current code refutes it: answer, node-down, then the local Add — the relation is recorded after the cleanup,
-    nobody is ever notified (replayed on the real node by the harness through the yield point
-    `RouteLinkPID:remote:before-add`) -/
-theorem C14_race_counterexample : ¬ C14_race_full := by
+/-- full statement for relations created concurrently with node-downs and reconnections: whenever no request is between
+    its steps, every recorded relation on a remote target is covered by a connection with that target's node — so the
+    next node-down cleans it up and notifies its holder (`C14_node_down_exactly_once`); none is left behind without a
+    connection. Requests that found their connection gone were either refused (relation removed again) or had been
+    cleaned up, hence notified, by the node-down in between. -/
+def C14_race_full (b : Bool) : Prop :=
+  ∀ (es : List Ev),
+    (run b init es).pending = [] → (run b init es).unchecked = [] →
+    ∀ k ∈ (run b init es).tm.rel, ∀ n, k.target.onNode n = true → ((run b init es).connOf n).isSome = true
+
+/-- **Request vs node-down, for the code as it is**: for every interleaving of requests (answer, insert, re-check),
+    node-downs and new connections. -/
+theorem C14_race : C14_race_full rc := by
+  have h : rc = true := by decide
+  rw [h]
+  intro es hp hu k hk n hn
+  have hi := LinkRace.run_inv es init_inv
+  rcases hi.covered k hk n hn with hc | ⟨r, hr, _⟩
+  · exact hc
+  · rw [hu] at hr; cases hr
+
+/-- the model's `down` is one step — the connection leaves the table and the relations are drained; that is faithful
+    for the re-check only because the code deletes the table entry BEFORE it drains (a re-check that still sees the
+    connection is then certainly ahead of the drain). Regenerated from network.unregisterConnection. -/
+theorem C14_code_shape_down : ErgoVerif.Gen.LinkRace.connectionDeletedBeforeNodeDown = true := by decide
+
+/-- the code before the repair (listed finding C14/F1, now fixed): answer, node-down, then the local insert — the
+    relation is recorded after the cleanup, nobody is ever notified (replayed on the real node by the harness through the
+    yield point `RouteLinkPID:remote:before-add`). Kept as a regression statement. -/
+theorem C14_race_before_fix : ¬ C14_race_full false := by
   intro h
-  have := h [.answered ⟨⟨1, 1001, 7⟩, .pid ⟨2, 1005, 9⟩, false⟩] [.add ⟨⟨1, 1001, 7⟩, .pid ⟨2, 1005, 9⟩, false⟩] 2
-    (by intro e he k hk; simp at he; subst he; cases hk) (by decide)
-    ⟨⟨1, 1001, 7⟩, .pid ⟨2, 1005, 9⟩, false⟩ (by decide)
+  have := h [.up 2, .answered ⟨⟨1, 1001, 7⟩, .pid ⟨2, 1005, 9⟩, false⟩ 2, .down 2,
+    .add ⟨⟨⟨1, 1001, 7⟩, .pid ⟨2, 1005, 9⟩, false⟩, 2, 0⟩] (by decide) (by decide)
+    ⟨⟨1, 1001, 7⟩, .pid ⟨2, 1005, 9⟩, false⟩ (by decide) 2 (by decide)
   revert this
   decide
 
-/-- partial: if the local Add of every answered request on `n` happens before the node-down (request and record are
-    not separated by it), the statement holds for all traces -/
-theorem C14_race_partial (tr1 tr2 : List Ev) (n : Node)
-    (hadd : ∀ e ∈ tr2, ∀ k, e = Ev.add k → k.target.onNode n = false) :
-    ∀ k ∈ (run init (tr1 ++ [Ev.down n] ++ tr2)).tm.rel, k.target.onNode n = false := by
-  rw [run_append, run_append]
-  have hi : TM.Inv (run init tr1).tm := LinkRace.run_inv tr1 init_inv
-  exact run_clean tr2 (LinkRace.step_inv hi _) (down_clean hi n) hadd
+/-- the notifications of every node-down are exactly-once for what is recorded at that moment, in every reachable state -/
+theorem C14_race_notified (es : List Ev) (n : Node) (c : Pid) (t : Target) (m : Bool) :
+    (routeNodeDown (run rc init es).tm n).2.count ⟨c, if m then .down else .exit, t⟩ =
+      if (⟨c, t, m⟩ : Key) ∈ (run rc init es).tm.rel ∧ t.onNode n = true ∧ c.node ≠ n then 1 else 0 := by
+  have h : rc = true := by decide
+  rw [h]
+  exact C14_node_down_exactly_once (LinkRace.run_inv es init_inv).tm n c t m
 
-/-- and the notifications of that node-down are exactly-once for what was recorded at that moment -/
-theorem C14_race_partial_notified (tr1 : List Ev) (n : Node) (c : Pid) (t : Target) (m : Bool) :
-    (routeNodeDown (run init tr1).tm n).2.count ⟨c, if m then .down else .exit, t⟩ =
-      if (⟨c, t, m⟩ : Key) ∈ (run init tr1).tm.rel ∧ t.onNode n = true ∧ c.node ≠ n then 1 else 0 :=
-  C14_node_down_exactly_once (LinkRace.run_inv tr1 init_inv) n c t m
+/-- non-vacuity: a request completed under a live connection is granted and notified once by the next node-down; one
+    whose connection is lost between the answer and the insert is refused and leaves nothing behind -/
+example :
+    let k : Key := ⟨⟨1, 1001, 7⟩, .pid ⟨2, 1005, 9⟩, false⟩
+    let s := run true init [.up 2, .answered k 2, .add ⟨k, 2, 0⟩, .recheck ⟨k, 2, 0⟩, .down 2]
+    s.granted = [k] ∧ s.notifs.length = 1 ∧ s.tm.rel = [] := by decide
 
-example : (run init [.answered ⟨⟨1, 1001, 7⟩, .pid ⟨2, 1005, 9⟩, false⟩, .add ⟨⟨1, 1001, 7⟩, .pid ⟨2, 1005, 9⟩, false⟩, .down 2]).notifs.length = 1 := by
-  decide
+example :
+    let k : Key := ⟨⟨1, 1001, 7⟩, .pid ⟨2, 1005, 9⟩, false⟩
+    let s := run true init [.up 2, .answered k 2, .down 2, .add ⟨k, 2, 0⟩, .recheck ⟨k, 2, 0⟩]
+    s.granted = [] ∧ s.refused = [k] ∧ s.tm.rel = [] := by decide
 
 end Race
 
